@@ -114,6 +114,13 @@ class R:
 
     __hash__ = None
 
+    def close(self, o, rel=1e-9):
+        """== up to float rounding: the cross products agree coefficient by coefficient within
+        rel * (largest coefficient).  For results that contain inexact float constants."""
+        a, b = p_mul(self.n, o.d), p_mul(o.n, self.d)
+        scale = max([abs(c) for c in a.values()] + [abs(c) for c in b.values()] + [F(0)])
+        return all(abs(a.get(m, 0) - b.get(m, 0)) <= rel * scale for m in set(a) | set(b))
+
     def is_zero(self):
         return not self.n
 
